@@ -580,3 +580,57 @@ pub fn encode_cases(r: &mut Rng, count: usize) -> Vec<String> {
     }
     out
 }
+
+
+/// inbound publishes with Response Topic / Correlation Data at every position among other properties
+/// (duplicates included), lengths around the owned capacities, user properties on the reply
+pub fn reply_cases(r: &mut Rng, count: usize) -> Vec<String> {
+    let mut out = Vec::new();
+    let lens = [0usize, 1, 2, 3, 4, 5, 8, 9, 15, 16, 17, 63, 64, 65, 127, 128, 129, 300];
+    for i in 0..count {
+        let mut props: Vec<OProp> = Vec::new();
+        let others = [0u8, 1, 2, 22, 5, 19];
+        let n = r.range(0, 5);
+        for _ in 0..n {
+            let k = *r.pick(&others);
+            let mut p = rand_prop_of_kind(r, k);
+            if k == 5 && p.num == 0 { p.num = 1; }
+            props.push(p);
+        }
+        let mk = |r: &mut Rng, kind: u8| -> OProp {
+            let n = *r.pick(&lens);
+            let data = if kind == 3 { vec![b'a' + (r.below(26) as u8); n] } else { r.bytes(n) };
+            OProp { kind, num: 0, data, data2: vec![] }
+        };
+        let nrt = *r.pick(&[0u64, 1, 1, 1, 2]);
+        let ncd = *r.pick(&[0u64, 1, 1, 2]);
+        for _ in 0..nrt {
+            let p = mk(r, 3);
+            let pos = r.below(props.len() as u64 + 1) as usize;
+            props.insert(pos, p);
+        }
+        for _ in 0..ncd {
+            let p = mk(r, 4);
+            let pos = r.below(props.len() as u64 + 1) as usize;
+            props.insert(pos, p);
+        }
+        let mut body = lp(b"req/t");
+        let qos = r.below(3) as u8;
+        if qos > 0 { body.extend_from_slice(&[0, 7]); }
+        let mut block: Vec<u8> = props.iter().flat_map(enc_prop).collect();
+        if i % 17 == 16 && !block.is_empty() {
+            block = mutate(r, &block);
+        }
+        body.extend(varint(block.len() as u32));
+        body.extend(block);
+        let npl = r.below(4) as usize;
+        body.extend(r.bytes(npl));
+        let pkt = packet(0x30 | (qos << 1), &body);
+        let nu = r.range(0, 2);
+        let user: Vec<OProp> = (0..nu).map(|_| rand_prop_of_kind(r, 22)).collect();
+        let mut e = Emit::default();
+        e.n(11).bytes(&pkt).props(&user).n(r.below(8));
+        out.push(e.line());
+    }
+    out
+}
